@@ -247,4 +247,15 @@ theorem add1_sq_ge (T L a n d : Nat) (hdT : 0 < d * T) :
   rw [Nat.le_div_iff_mul_le hdT]
   nlinarith [Nat.zero_le (n * a * L * L)]
 
+/-- lift a one-side inequality `T·r² ≤ T'·L²` to the product of both reserves -/
+theorem add1_side_X (X Y L X' r : Nat) (h : X * r ^ 2 ≤ X' * L ^ 2) : X * Y * r ^ 2 ≤ X' * Y * L ^ 2 := by
+  calc X * Y * r ^ 2 = Y * (X * r ^ 2) := by ring
+    _ ≤ Y * (X' * L ^ 2) := Nat.mul_le_mul_left _ h
+    _ = X' * Y * L ^ 2 := by ring
+
+theorem add1_side_Y (X Y L Y' r : Nat) (h : Y * r ^ 2 ≤ Y' * L ^ 2) : X * Y * r ^ 2 ≤ X * Y' * L ^ 2 := by
+  calc X * Y * r ^ 2 = X * (Y * r ^ 2) := by ring
+    _ ≤ X * (Y' * L ^ 2) := Nat.mul_le_mul_left _ h
+    _ = X * Y' * L ^ 2 := by ring
+
 end Irismod.Proofs.CoinswapArith
